@@ -725,3 +725,46 @@ func controlConds(fn *ssa.Function, b *ssa.BasicBlock) []condEdge {
 	}
 	return out
 }
+
+// LeavesIP is Leaves with one refinement: a leaf that is a parameter of an
+// unexported function all of whose callers are static call sites is replaced
+// by the leaves of the corresponding argument at each call site (up to two
+// levels). Moving a few statements into a local helper therefore does not
+// hide where a value comes from.
+func LeavesIP(p *Prog, fn *ssa.Function, v ssa.Value, depth int) []ssa.Value {
+	var out []ssa.Value
+	for _, l := range Leaves(v, nil) {
+		prm, ok := l.(*ssa.Parameter)
+		if !ok || depth >= 2 || fn == nil || fn.Object() == nil || fn.Object().Exported() {
+			out = append(out, l)
+			continue
+		}
+		idx := -1
+		for i, q := range fn.Params {
+			if q == prm {
+				idx = i
+			}
+		}
+		sites := p.CallsToFn(fn)
+		if idx < 0 || len(sites) == 0 {
+			out = append(out, l)
+			continue
+		}
+		replaced := true
+		var sub []ssa.Value
+		for _, cs := range sites {
+			args := cs.Instr.(ssa.CallInstruction).Common().Args
+			if idx >= len(args) {
+				replaced = false
+				break
+			}
+			sub = append(sub, LeavesIP(p, cs.Fn, args[idx], depth+1)...)
+		}
+		if replaced {
+			out = append(out, sub...)
+		} else {
+			out = append(out, l)
+		}
+	}
+	return out
+}
